@@ -356,3 +356,77 @@ def with_config(p, nranks, short, mt=None, cores=None):
     if cores is not None:
         q.cores = cores
     return q
+
+
+# ------------------------------------------------ the documented semantics (CHANGELOG.ptg.md), statically
+def nsel(s, mb):
+    """number of elements a shape selects in an mb x mb tile"""
+    return {1: mb * mb, 2: mb * (mb + 1) // 2, 3: mb * (mb + 1) // 2, 4: mb * (mb - 1) // 2, 5: mb * (mb - 1) // 2}[s]
+
+
+def expected_local(d, to, ti):
+    p = d if (to == 0 or to == d) else to
+    u = p if ti == 0 else ti
+    return None if (p == d and u == d) else (p, u)
+
+
+def declared(p):
+    """type of the copy every instance holds according to the documentation, and whether every declared
+    conversion fits (packs no more than it unpacks; remote: packs exactly what the receiver's type takes).
+    -> (valid, why, {(c, k, r): dtt})"""
+    dtt, own = {}, {}
+    for ci, C in enumerate(p.classes):
+        for k in range(p.nt):
+            for r in range(C.R):
+                me = p.rank_of(ci, k, r)
+                if C.inp[0] == "D":
+                    _, ty, td = C.inp
+                    src, dst = (td or 1), (ty or td)
+                    if (ty == 0 and td == 0) or dst == 1:
+                        dtt[(ci, k, r)], own[(ci, k, r)] = 1, True
+                    else:
+                        if nsel(src, p.mb) > nsel(dst, p.mb):
+                            return False, "C%d reads more than its type takes" % ci, dtt
+                        dtt[(ci, k, r)], own[(ci, k, r)] = dst, False
+                else:
+                    _, q, sh, ti, tri = C.inp
+                    pk_ = (q, (k + sh) % p.nt, 0)
+                    d = dtt[pk_]
+                    o = [x for x in p.classes[q].outs if x[0] == "E" and x[1] == ci][0]
+                    if p.rank_of(*pk_) == me:
+                        e = expected_local(d, o[2], ti)
+                        if e is None:
+                            dtt[(ci, k, r)] = d
+                        else:
+                            if nsel(e[0], p.mb) > nsel(e[1], p.mb):
+                                return False, "C%d <- C%d packs more than it unpacks" % (ci, q), dtt
+                            dtt[(ci, k, r)] = e[1]
+                    else:
+                        a, b = (o[3] or d), (tri or 1)
+                        if nsel(a, p.mb) != nsel(b, p.mb):
+                            return False, "C%d <- C%d remote sizes differ" % (ci, q), dtt
+                        dtt[(ci, k, r)] = b
+                    own[(ci, k, r)] = False
+                for x in C.outs:
+                    if x[0] == "M" and not own[(ci, k, r)]:
+                        a, b = (x[1] or dtt[(ci, k, r)]), (x[2] or 1)
+                        if nsel(a, p.mb) > nsel(b, p.mb):
+                            return False, "C%d writes back more than the tile type takes" % ci, dtt
+    return True, "", dtt
+
+
+def mixed_outputs(p):
+    """a producer instance serves, on one rank, successors through output dependencies of different [type]
+    (its own rank) or through different messages (another rank): the situations in which the carried
+    reshape promise of notes/findings/C18-stale-promise.md matters"""
+    for ci, C in enumerate(p.classes):
+        if C.R != 1:
+            continue
+        for k in range(p.nt):
+            me = p.rank_of(ci, k, 0)
+            per = {}
+            for u in succs(p, ci, k):
+                per.setdefault(u["rank"], set()).add(u["to"] if u["rank"] == me else (u["to"], u["tro"]))
+            if any(len(v) > 1 for v in per.values()):
+                return True
+    return False
